@@ -1,8 +1,155 @@
-(* C07 -- construction API never leaves an illegally wired circuit.  Statements only. *)
+(* C07 -- the construction API never leaves an illegally wired circuit.  Statements only; proofs in Proofs/ApiProofs.v.
+   `step : Circuit → op → Circuit * outcome` (Base/Api.v) is the model of the eight mutators, partial effects of a
+   rejected call included; `Inv`, `pins_ok`, `edges` are defined in Model/ApiInv.v. *)
 From stdpp Require Import strings gmap sets.
-From CG Require Import Model.ApiInv.
+From CG Require Import Model.ApiInv Proofs.ApiProofs.
 Open Scope string_scope.
 
+(* obligation on the regenerated type lists of circuit.py (connect, add, supported_types): as sets they are the
+   documented ones.  A changed list in the source breaks this and with it every theorem below. *)
 Theorem C07_tables_ok : tables_okb = true.
 Proof. vm_compute. reflexivity. Qed.
 Print Assumptions C07_tables_ok.
+
+(* the boolean invariant evaluated by the oracle is the declarative one *)
+Theorem C07_invb_spec : ∀ C, invb C = true ↔ Inv C.
+Proof. intros C. apply bool_decide_eq_true. Qed.
+Print Assumptions C07_invb_spec.
+Theorem C07_pins_okb_spec : ∀ C R, pins_okb C R = true ↔ pins_ok C R.
+Proof. intros C R. apply bool_decide_eq_true. Qed.
+Print Assumptions C07_pins_okb_spec.
+(* Inv, spelled out against the property text *)
+Theorem C07_Inv_meaning : ∀ C, Inv C ↔
+  closed (c_g C) ∧
+  ∀ n i, c_g C !! n = Some i →
+    n_ty i ∈ [Buf; And; Or; Xor; Not; Nand; Nor; Xnor; C0; C1; CX; Input; BbIn; BbOut] ∧
+    (n_ty i ∈ [Input; C0; C1; CX; BbOut] → n_fi i = ∅) ∧
+    (n_ty i ∈ [Buf; Not; BbIn] → size (n_fi i) ≤ 1) ∧
+    (n_ty i = BbIn → fanout (c_g C) n = ∅) ∧
+    (n_ty i = BbOut → size (fanout (c_g C) n) ≤ 1 ∧ ∀ m, m ∈ fanout (c_g C) n → ty (c_g C) m = Some Buf).
+Proof. intros C. unfold Inv, wired. by rewrite closed'_iff, map_Forall_lookup. Qed.
+Print Assumptions C07_Inv_meaning.
+
+(* ---------------------------------------------------------------- the invariant *)
+(* hypotheses on a subcircuit argument: it is itself legally wired, and none of its outputs is a blackbox pin;
+   fill_blackbox: a pin node that is present has its pin type (a caller may have removed a pin and re-created
+   the name with another type -- see docs/C07.md) *)
+Definition sub_ok (SC : Circuit) : Prop :=
+  Inv SC ∧ pins_ok SC ∅ ∧ ∀ n, n ∈ outputs (c_g SC) → ty (c_g SC) n ≠ Some BbIn ∧ ty (c_g SC) n ≠ Some BbOut.
+Definition args_ok (C : Circuit) (o : op) : Prop :=
+  match o with
+  | OAddSubcircuit SC _ _ => sub_ok SC
+  | OFillBlackbox inst SC =>
+      sub_ok SC ∧ ∀ d, c_bbs C !! inst = Some d →
+        (∀ p, p ∈ bb_in d → ty (c_g C) (pin inst p) ∈ [None; Some BbIn]) ∧
+        (∀ p, p ∈ bb_out d → ty (c_g C) (pin inst p) ∈ [None; Some BbOut])
+  | _ => True end.
+Fixpoint hist_args_ok (C : Circuit) (ops : list op) : Prop :=
+  match ops with [] => True | o :: l => args_ok C o ∧ hist_args_ok (step C o).1 l end.
+
+(* full strength: every operation, succeeding or raising, preserves the invariant.  NOT proved for add_subcircuit
+   and fill_blackbox; decided for these on every generated history by the oracle (Run_C07.holds). *)
+Definition C07_invariant_full : Prop := ∀ C o, args_ok C o → Inv C → Inv (step C o).1.
+Definition C07_reachable_full : Prop := ∀ C ops, hist_args_ok C ops → Inv C → Inv (run C ops).
+(* the history statement is the one-step statement iterated *)
+Theorem C07_reachable_from_invariant : C07_invariant_full → C07_reachable_full.
+Proof.
+  intros H C ops. revert C. unfold run. induction ops as [|o l IH]; intros C Ha Hi; simpl; [done|].
+  destruct Ha as [Ha Hl]. apply IH; [done|]. by apply H.
+Qed.
+Print Assumptions C07_reachable_from_invariant.
+
+(* proved: add (default flags / uid=True), connect, disconnect, remove, set_output, add_blackbox with ARBITRARY
+   arguments (missing nodes, duplicates, self references, any type, any name), whether the call succeeds or raises *)
+Theorem C07_invariant_partial : ∀ C o, core_op o = true → Inv C → Inv (step C o).1.
+Proof. intros C o. exact (step_inv_core C o C07_tables_ok). Qed.
+Print Assumptions C07_invariant_partial.
+Theorem C07_reachable_partial : ∀ C ops, Forall (λ o, core_op o = true) ops → Inv C → Inv (run C ops).
+Proof. intros C ops. exact (run_inv_core C ops C07_tables_ok). Qed.
+Print Assumptions C07_reachable_partial.
+Theorem C07_reachable_from_empty_partial : ∀ name ops, Forall (λ o, core_op o = true) ops → Inv (run (empty_circuit name) ops).
+Proof. intros name ops H. apply (run_inv_core _ ops C07_tables_ok H), empty_inv. Qed.
+Print Assumptions C07_reachable_from_empty_partial.
+
+(* ---------------------------------------------------------------- rejected calls *)
+(* full strength: a rejected call changes no wire and raises ValueError (set_output on a missing node: KeyError,
+   which the property text does not count as illegal type, name or connection).  Needs `Inv C` (closedness) for the
+   calls that undo their partial effects by removing nodes.  NOT proved for add_blackbox and add_subcircuit. *)
+Definition reject_exn (o : op) : exn := match o with OSetOutput _ _ => KeyError | _ => ValueError end.
+Definition C07_reject_full : Prop := ∀ C o e, args_ok C o → Inv C → (step C o).2 = Fail e →
+  edges (c_g (step C o).1) = edges (c_g C) ∧ e = reject_exn o.
+(* proved without any hypothesis on C: add, connect, disconnect, remove, set_output (the registry is untouched as well) *)
+Theorem C07_reject_partial : ∀ C o e, basic_op o = true → (step C o).2 = Fail e →
+  edges (c_g (step C o).1) = edges (c_g C) ∧ c_bbs (step C o).1 = c_bbs C ∧ e = reject_exn o.
+Proof. exact step_reject_basic. Qed.
+Print Assumptions C07_reject_partial.
+(* fill_blackbox checks everything before it touches the circuit *)
+Theorem C07_reject_fill : ∀ C inst SC e, (step C (OFillBlackbox inst SC)).2 = Fail e → (step C (OFillBlackbox inst SC)).1 = C ∧ e = ValueError.
+Proof. intros C inst SC e. simpl. unfold fill_blackbox. repeat case_match; simpl; intros [=]; done. Qed.
+Print Assumptions C07_reject_fill.
+
+(* ---------------------------------------------------------------- add never overwrites or renames *)
+(* every add call (any flags of the property, any outcome): the registry and every existing node's name, type and
+   output mark are unchanged and no existing wire is lost *)
+Theorem C07_add_preserves : ∀ C n t fi fo out u,
+  let r := step C (OAdd n t fi fo out u) in
+  c_bbs r.1 = c_bbs C ∧
+  ∀ m i, c_g C !! m = Some i → ∃ i', c_g r.1 !! m = Some i' ∧ n_ty i' = n_ty i ∧ n_out i' = n_out i ∧ n_fi i ⊆ n_fi i'.
+Proof. exact step_add_preserves. Qed.
+Print Assumptions C07_add_preserves.
+(* a successful add returns a name that was free, and that name now carries the requested type; without uid it is n *)
+Theorem C07_add_fresh : ∀ c n t fi fo out u,
+  let r := add_g c n t fi fo {| af_out := out; af_conn := false; af_redef := false; af_uid := u |} in
+  r.1.2 = Done → r.2 ∉ dom c ∧ ty r.1.1 r.2 = Some t ∧ (u = false → r.2 = n).
+Proof. exact add_g_name_fresh. Qed.
+Print Assumptions C07_add_fresh.
+(* the uid loop (n, n_0 .. n_10, n_70, n_490 ...) always ends on a free name *)
+Theorem C07_uid_fresh : ∀ c n, uid c n ∉ dom c.
+Proof. exact uid_fresh. Qed.
+Print Assumptions C07_uid_fresh.
+
+(* ---------------------------------------------------------------- blackbox pins *)
+(* R = names the caller passed to remove() so far.  NOT proved for add_blackbox, add_subcircuit, fill_blackbox
+   (conjectured for instance and pin names without dots). *)
+Definition C07_pins_full : Prop := ∀ C o R, args_ok C o → Inv C → pins_ok C R → pins_ok (step C o).1 (R ∪ removed_by o).
+Theorem C07_pins_partial : ∀ C o R, basic_op o = true → pins_ok C R → pins_ok (step C o).1 (R ∪ removed_by o).
+Proof. exact step_pins_basic. Qed.
+Print Assumptions C07_pins_partial.
+
+(* ---------------------------------------------------------------- non-vacuity *)
+Definition ex_ops : list op :=
+  [ OAdd "a" Input [] [] false false; OAdd "b" Input [] [] false false; OAdd "g" And ["a"; "b"] [] true false;
+    OAdd "q" Buf [] [] true false;
+    OAddBlackbox {| bb_name := "ff"; bb_in := {["d"; "clk"]}; bb_out := {["q"]} |} "f0" ["d"; "clk"] ["q"] [("d", ["g"]); ("q", ["q"])];
+    OAdd "g" Or ["a"] [] false true;                      (* uid: becomes g_0 *)
+    OAdd "h" Not ["a"; "b"] [] false false;               (* rejected: two drivers for a not *)
+    OAdd "k" And ["nope"] ["g"] false false;              (* rejected after the node and the wire k -> g were made *)
+    OConnect ["a"] ["f0.q"];                              (* rejected: blackbox output has no fan-in *)
+    OConnect ["f0.q"] ["g"];                              (* rejected: blackbox output drives one buf only *)
+    OSetOutput ["g_0"; "zz"] true; ORemove ["b"; "zz"]; ODisconnect ["a"] ["g"; "g_0"] ].
+Example C07_ex_history :
+  let C := run (empty_circuit "top") ex_ops in
+  Inv C ∧ pins_ok C {["b"; "zz"]} ∧ dom (c_g C) = {["a"; "g"; "q"; "f0.d"; "f0.clk"; "f0.q"; "g_0"; "k"]} ∧
+  edges (c_g C) = {[("g", "f0.d"); ("f0.q", "q")]} ∧ dom (c_bbs C) = {["f0"]}.
+Proof.
+  split; [apply C07_reachable_from_empty_partial; repeat constructor|].
+  split; [apply C07_pins_okb_spec; vm_compute; reflexivity|].
+  repeat split; apply (bool_decide_unpack _); vm_compute; exact I.
+Qed.
+Example C07_ex_outcomes : (λ o, (step (run (empty_circuit "top") (take 7 ex_ops)) o).2) <$> (take 3 (drop 7 ex_ops))
+  = [Fail ValueError; Fail ValueError; Fail ValueError].
+Proof. vm_compute. reflexivity. Qed.
+(* the invariant is not trivially true: a not gate with two drivers, a loaded blackbox input *)
+Example C07_ex_violating :
+  ¬ Inv {| c_name := "t"; c_g := {[ "n" := mk_node Not false {[ "a"; "b" ]} ]} ∪ {[ "a" := mk_node Input false ∅ ]} ∪ {[ "b" := mk_node Input false ∅ ]}; c_bbs := ∅ |} ∧
+  ¬ Inv {| c_name := "t"; c_g := {[ "n" := mk_node And false {[ "p" ]} ]} ∪ {[ "p" := mk_node BbIn false ∅ ]}; c_bbs := ∅ |}.
+Proof. split; intros H%C07_invb_spec; vm_compute in H; discriminate. Qed.
+(* the hypotheses of the full statements are satisfiable by a real subcircuit *)
+Example C07_ex_sub_ok : sub_ok {| c_name := "sc"; c_g := {[ "y" := mk_node Nand true {[ "d" ]} ]} ∪ {[ "d" := mk_node Input false ∅ ]}; c_bbs := ∅ |}.
+Proof.
+  split; [apply C07_invb_spec; vm_compute; reflexivity|]. split; [apply C07_pins_okb_spec; vm_compute; reflexivity|].
+  intros n Hn. assert (n = "y") as ->.
+  { apply elem_of_outputs in Hn as (i & Hi & Ho). simpl in Hi. destruct (decide (n = "y")); [done|].
+    rewrite lookup_union_r in Hi by (by rewrite lookup_singleton_ne). apply lookup_singleton_Some in Hi as [<- <-]. done. }
+  vm_compute. split; discriminate.
+Qed.
